@@ -355,14 +355,92 @@ func c11ShutdownFirst(r *Result, d *drv.Driver) {
 	}
 }
 
+// c11AfterServeFailed: Serve has already returned by itself - a permanent Accept error - while sessions it started are still
+// open (one idle, one with a request in flight); Shutdown is called afterwards. "Shutdown returns nil only when every session
+// that was started has ended and its connection has been closed; otherwise it returns the context's error": with the sessions
+// still open and a context that expires, Shutdown must report the context's error, and once they have ended, nil.
+func c11AfterServeFailed(r *Result) {
+	for _, inflight := range []bool{false, true} {
+		key := fmt.Sprintf("session open (request in flight: %v), permanent Accept error ends Serve, then Shutdown with a 300 ms context", inflight)
+		r.eval(key, true)
+		s := &kmip.Server{}
+		release := make(chan struct{})
+		entered := make(chan struct{}, 1)
+		s.Handle(kmip.OPERATION_ACTIVATE, func(ctx *kmip.RequestContext, item *kmip.RequestBatchItem) (interface{}, error) {
+			entered <- struct{}{}
+			<-release
+			return kmip.ActivateResponse{UniqueIdentifier: "x"}, nil
+		})
+		sc, cc := rec.Pipe()
+		rc := rec.NewConn(sc, 1)
+		l := rec.NewListener()
+		l.Push(rec.AcceptStep{Conn: rc})
+		init := make(chan struct{})
+		ret := make(chan error, 1)
+		go func() { ret <- s.Serve(l, init) }()
+		<-init
+		_ = cc.SetDeadline(time.Now().Add(5 * time.Second))
+		enc, dec := kmip.NewEncoder(cc), kmip.NewDecoder(cc)
+		// one complete exchange proves the session is up
+		var resp kmip.Response
+		dv := kmip.Request{Header: kmip.RequestHeader{Version: kmip.ProtocolVersion{Major: 1, Minor: 4}, BatchCount: 1},
+			BatchItems: []kmip.RequestBatchItem{{Operation: kmip.OPERATION_DISCOVER_VERSIONS, RequestPayload: kmip.DiscoverVersionsRequest{}}}}
+		if err := enc.Encode(&dv); err == nil {
+			_ = dec.Decode(&resp)
+		}
+		if inflight {
+			act := kmip.Request{Header: kmip.RequestHeader{Version: kmip.ProtocolVersion{Major: 1, Minor: 4}, BatchCount: 1},
+				BatchItems: []kmip.RequestBatchItem{{Operation: kmip.OPERATION_ACTIVATE, RequestPayload: kmip.ActivateRequest{UniqueIdentifier: "a"}}}}
+			_ = enc.Encode(&act)
+			<-entered
+		}
+		permanent := fmt.Errorf("accept: file descriptor table corrupted")
+		l.Push(rec.AcceptStep{Err: permanent})
+		obs := ""
+		select {
+		case e := <-ret:
+			obs += fmt.Sprintf("serve=%v ", e == permanent)
+		case <-time.After(3 * time.Second):
+			obs += "serve=still-running "
+		}
+		ctx, cancel := context.WithTimeout(context.Background(), 300*time.Millisecond)
+		t0 := time.Now()
+		sdErr := s.Shutdown(ctx)
+		cancel()
+		open := true
+		select {
+		case <-rc.Closed():
+			open = false
+		default:
+		}
+		obs += fmt.Sprintf("shutdown=%v session-open-when-it-returned=%v waited>=250ms=%v", sdErr, open, time.Since(t0) >= 250*time.Millisecond)
+		want := "serve=true shutdown=context deadline exceeded session-open-when-it-returned=true waited>=250ms=true"
+		if obs != want {
+			r.find(Finding{Kind: "violation", What: "Shutdown after Serve had ended by itself did not wait for the sessions Serve had started", Input: key, Expect: want, Actual: obs})
+		}
+		close(release)
+		if inflight {
+			_ = dec.Decode(&resp)
+		}
+		cc.Close()
+		select {
+		case <-rc.Closed():
+		case <-time.After(3 * time.Second):
+			r.find(Finding{Kind: "violation", What: "a session outlived its peer after Serve had ended by itself", Input: key})
+		}
+		r.Stats["serve-failed-then-shutdown-scenarios"]++
+	}
+}
+
 func runC11(r *Result, d *drv.Driver, tier string, seed int64, replay string) {
 	c11ShutdownFirst(r, d)
+	c11AfterServeFailed(r)
 	maxLen := 5
 	if tier == "thorough" {
 		maxLen = 7
 	}
 	r.Rule = fmt.Sprintf("exhaustive: every schedule up to length %d over {connection arrives and is served, request put in flight (handler blocked), handler released, client closes, Shutdown called, Shutdown landing between Accept returning and registration, context cancelled} that is a run of the Lean transition system; "+
-		"each is replayed on the real Server through an injected listener (Shutdown is called from inside Accept to place it deterministically), blocking handlers and a cancellable context; observed: Shutdown's and Serve's return values, sessions started / still open / connections closed late, and the order of Shutdown's return relative to session starts and ends. distinct = one per schedule; non-trivial = contains Shutdown", maxLen)
+		"each is replayed on the real Server through an injected listener (Shutdown is called from inside Accept to place it deterministically), blocking handlers and a cancellable context; observed: Shutdown's and Serve's return values, sessions started / still open / connections closed late, and the order of Shutdown's return relative to session starts and ends. plus: Shutdown before Serve; Shutdown after Serve ended by itself on a permanent Accept error with sessions still open. distinct = one per schedule; non-trivial = contains Shutdown", maxLen)
 	r.Exhaustive = true
 	alphabet := []string{"A", "Q", "R", "C", "S", "L", "X"}
 	var seqs [][]string
